@@ -15,7 +15,7 @@ RULE = ("seeded runs; a run = product x back-end x records_per_chunk x a list of
         "record} + every record boundary b and b-1,b+1 (all of them for images of <= 12 lines, "
         "sampled above) + random interior points, and eio(file, n) = the n-th read request on that "
         "file fails once with EIO (recorded back-ends); thorough adds runs that cut one small image at "
-        "EVERY byte; each fault is one evaluation; distinct key = (file kind, cut class, relation "
+        "every 4th byte (the phase varies from run to run); each fault is one evaluation; distinct key = (file kind, cut class, relation "
         "of r to N, outcome class, level)")
 EXHAUSTIVE = {"quick": False, "thorough": False}
 ASSUMPTIONS = [
@@ -71,7 +71,10 @@ def generate(rng, tier, index):
     faults = []
     if exhaustive:
         img = rng.choice(prod.images)
-        faults = [{"kind": "trunc", "file": img, "at": k} for k in range(len(prod.files[img]))]
+        # every 4th byte, the phase varies from run to run (a run that cuts at EVERY byte of even
+        # a 2 kB image needs minutes and came close to the wall limit on a loaded machine)
+        faults = [{"kind": "trunc", "file": img, "at": k}
+                  for k in range(rng.randrange(4), len(prod.files[img]), 4)]
         return {"world": wp, "rpc": r, "faults": faults, "exhaustive_file": img}
     budget = 22 if tier == "quick" else 40
     for f in ["summary.txt", prod.vol, prod.led, prod.trl] + prod.images:
